@@ -132,6 +132,10 @@ def main(argv):
                 print("REGRESS-ERROR %s: %s" % (sid, err))
             else:
                 fdirs[sid] = d
+    if "--where" in argv:
+        for sid, d in sorted(fdirs.items()):
+            print("%s %s" % (sid, d))
+        return 0
     res = {}
     with ThreadPoolExecutor(max_workers=14) as ex:
         for sid, kind, r in ex.map(lambda it: evaluate(it, fdirs[it[1]], props_filter), [it for it in items if it[1] in fdirs]):
@@ -163,7 +167,7 @@ def main(argv):
         print("[regress] errors: %s" % errors)
     os.makedirs(os.path.join(harness.VERIF, "out"), exist_ok=True)
     json.dump({sid: {"kind": k, "violations": r["violations"], "undecided": r["undecided"], "rc": r["rc"]} for sid, (k, r) in res.items()},
-              open(os.path.join(harness.VERIF, "out", "regress.json"), "w"), indent=1)
+              open(os.path.join(harness.VERIF, "out", "regress%s.json" % ("-" + "-".join(props_filter) if props_filter else "")), "w"), indent=1)
     return 0
 
 
